@@ -379,7 +379,87 @@ pub fn run(tape: &mut Tape, props: Props, p: &Params, trace_on: bool) -> Outcome
         probes: [None, None],
         stall_total: initial_read_stall,
     };
-    let res = main_loop(&mut w, &mut st, tape);
+    let mut res = main_loop(&mut w, &mut st, tape);
+    // ---- second life: the same two socket objects carry a second connection after the first one ended or was
+    // cut short (abort with data still parked out of order, half-closed, mid-retransmission ...): nothing of the
+    // first connection may leak into the second
+    let reuse = res.is_ok() && (abort_side.is_some() || tape.draw(4) == 3);
+    if reuse {
+        res = (|| -> Result<(), Violation> {
+            w.stats.inc("tcp.socket-reused");
+            for i in 0..2 {
+                let h = st.apps[i].h;
+                let s = w.nodes[i].sockets.get_mut::<tcp::Socket>(h);
+                guard("tcp::abort", || s.abort())?;
+            }
+            // let the resets leave, then a long quiet period: everything still in flight is gone
+            for i in 0..2 {
+                let now = w.now;
+                w.nodes[i].dev.tx_budget = None;
+                let _ = w.nodes[i].poll(now)?;
+                w.nodes[i].dev.rx.clear();
+            }
+            w.q.clear();
+            for e in w.evs.iter_mut() {
+                *e = None;
+            }
+            w.now += 300_000_000;
+            for i in 0..2 {
+                let now = w.now;
+                let _ = w.nodes[i].poll(now)?;
+                w.nodes[i].dev.rx.clear();
+                // the application drains what it had not read
+                let h = st.apps[i].h;
+                let s = w.nodes[i].sockets.get_mut::<tcp::Socket>(h);
+                guard("tcp::recv", || {
+                    while let Ok(n) = s.recv(|b| (b.len(), b.len())) {
+                        if n == 0 {
+                            break;
+                        }
+                    }
+                })?;
+            }
+            let fresh = [tape.draw(u64::MAX) | 1, tape.draw(u64::MAX) | 2];
+            for i in 0..2 {
+                let cap = 20 * st.apps[1 - i].rx_cap as u64 + 50;
+                let a = &mut st.apps[i];
+                a.to_send = tape.range(0, cap.min(60_000));
+                a.sent = 0;
+                a.key_tx = fresh[i];
+                a.recvd = 0;
+                a.closed = false;
+                a.eof = false;
+                a.err = false;
+                a.read_stall_until = 0;
+                a.write_stall_until = 0;
+                a.ever_established = false;
+                a.aborted = false;
+                a.abort_at_recvd = None;
+            }
+            st.mon = [SenderMon::default(), SenderMon::default()];
+            st.last_progress = w.now;
+            st.last_states = [tcp::State::Closed; 2];
+            st.last_sendq = [0; 2];
+            st.spin = [(0, 0); 2];
+            st.last_refused = [false; 2];
+            st.probes = [None, None];
+            let ports2 = [40001u16, 81u16];
+            let s = w.nodes[1].sockets.get_mut::<tcp::Socket>(st.apps[1].h);
+            guard("tcp::listen", || s.listen(ports2[1]).unwrap())?;
+            let remote = (to_smol(&w.views[1].addrs[0].0), ports2[1]);
+            let n = &mut w.nodes[0];
+            let cx = n.iface.context();
+            let s = n.sockets.get_mut::<tcp::Socket>(st.apps[0].h);
+            guard("tcp::connect", || s.connect(cx, remote, ports2[0]).unwrap())?;
+            w.link.fault_end = w.now + tape.range(0, 20) as i64 * 1_000_000;
+            let now = w.now;
+            w.schedule(now, Ev::App { node: 0 });
+            w.schedule(now, Ev::App { node: 1 });
+            let fe = w.link.fault_end;
+            w.schedule(fe, Ev::FaultEnd);
+            main_loop(&mut w, &mut st, tape)
+        })();
+    }
     let viol = res.err();
     let ooo = w.stats.get("tcp.rx-out-of-order");
     let rexmit = w.stats.get("tcp.retransmission");
